@@ -42,6 +42,10 @@ pub struct Mode {
     /// variant of `edge_props_lost` for the WITH case: a sort planned after the WITH re-materialises the
     /// columns once more and `type(r)` works again, only the properties stay lost
     pub edge_types_kept: bool,
+    /// variant of `edge_props_lost` for the comma case whose second pattern has a variable-length hop: the rows
+    /// are re-materialised below the WHERE, which then reads every edge property of the first pattern as NULL
+    /// (whether or not a node shares the edge's id)
+    pub edge_props_lost_where_too: bool,
     /// a WITH alias returned by name goes through a node-id typed column: integers survive, NULL
     /// survives, every other value comes back as integer 0
     pub with_alias_as_nodeid: bool,
@@ -506,6 +510,9 @@ impl<'a> Evaluator<'a> {
                 lost.extend(q.chains[0].steps.iter().filter_map(|(e, _)| e.var.clone()));
             }
             *self.lost_edges.borrow_mut() = lost;
+            if self.mode.edge_props_lost_where_too {
+                *self.lost_always.borrow_mut() = true;
+            }
             // a variable-length hop in the second pattern re-materialises its input rows: type() of the
             // first pattern's edges is lost as well (`*1..1` is planned as a plain single hop and does not)
             if q.chains.len() > 1 && q.chains[1].steps.iter().any(|(e, _)| e.hops.is_some_and(|h| h != (1, 1))) {
